@@ -1050,6 +1050,57 @@ TSAN_TOOLS = [("dumpe2fs", ["dumpe2fs"]), ("e2fsck", ["e2fsck", "-fn"]),
               ("debugfs-stats", ["debugfs", "-R", "stats"]), ("e2image", ["e2image"])]
 
 
+def _run_huge(arg):
+    """More than 2^32 clusters (sparse file): positions inside the shared bitmaps no longer fit
+    32 bits.  Plain build, digests only; 1 thread vs several."""
+    plain_root, seed, idx = arg
+    plain = build.Build(plain_root, "plain")
+    env = run.base_env(plain)
+    drv = plain.driver("drv_rwbmap")
+    rng = run.rng_for(seed, "C17", "huge", idx)
+    bs, gsize = rng.choice([(2048, 16384), (1024, 8192), (4096, 32768)])
+    hi0 = (1 << 32) // gsize
+    # enough groups behind cluster 2^32 that, with 2..16 threads, some thread starts there
+    groups = hi0 + hi0 // rng.choice([1, 2, 4])
+    geo = {"bs": bs, "gsize": gsize, "groups": groups, "huge": True}
+    out = {"idx": idx, "geo": geo, "cases": [], "skip": None, "huge": True}
+    with run.Work("C17h") as w:
+        img = w.path("huge.img")
+        argv = [plain.tool("mke2fs"), "-q", "-F", "-t", "ext4", "-b", str(bs), "-g", str(gsize),
+                "-N", str(groups * 16), "-O", "^has_journal,^resize_inode,metadata_csum,64bit",
+                "-E", "lazy_itable_init=1,hash_seed=01234567-89ab-cdef-0123-456789abcdef",
+                "-U", "11111111-2222-3333-4444-555555555555", img, str(groups * gsize)]
+        r = run.run(argv, env=env, timeout=900)
+        if r.rc != 0:
+            out["skip"] = "mke2fs (huge) rc=%s: %s" % (r.rc, r.etext[-200:])
+            return out
+        # allocate runs of blocks in a few groups beyond cluster 2^32 and one below
+        hi0 = (1 << 32) // gsize
+        cmds = []
+        for g in sorted(set([7, hi0 + 1, hi0 + (groups - hi0) // 2, groups - 3])):
+            cmds.append("setb %d %d" % (g * gsize + gsize // 2 + rng.randrange(100), rng.choice([1, 64, 500])))
+        r = run.run([plain.tool("debugfs"), "-w", "-f", "-", img], env=env, timeout=900,
+                    stdin=("\n".join(cmds) + "\n").encode())
+        if r.rc != 0:
+            out["skip"] = "debugfs setb (huge) rc=%s: %s" % (r.rc, r.etext[-200:])
+            return out
+        e2 = dict(env, RWBMAP_TERSE="1")
+        counts = [1, 2, 3, 5, 16]
+        r = run.run([drv, img, "0", "0"] + [str(c) for c in counts], env=e2, timeout=1200, cap=4 << 20)
+        case = {"what": "drv_rwbmap", "variant": "huge", "damage": None, "delay": 0, "viol": [],
+                "timeout": r.timed_out, "facts": None}
+        if not r.timed_out:
+            v, facts = judge_rwbmap(r.text, None)
+            facts["ilv"] = sorted(facts["ilv"])
+            case["facts"] = facts
+            case["viol"] = v
+            if r.rc != 0 or r.sig:
+                case["viol"].append(("C17 rwbmap driver died", "rc=%s sig=%s %s" % (r.rc, r.sig, r.etext[-600:])))
+        out["cases"].append(case)
+        out["layout"] = {"groups": groups, "bs": bs, "cpg": gsize, "ipg": 16, "uninit_groups": -1}
+    return out
+
+
 def _run_geometry(arg):
     plain_root, tsan_root, seed, idx, given, delays = arg
     plain = build.Build(plain_root, "plain")
@@ -1352,6 +1403,33 @@ def _main(rep, tier, seed, replay, scale, plain, tsan, drv_p, drv_a, env_p, env_
                 seen_keys.add(key)
                 rep.violation(key, "%s | geometry: %s variant=%s damage=%s" %
                               (what, gc, c["variant"], c["damage"]), replay=case)
+    # ---- (B') filesystems with more than 2^32 clusters (sparse), 1 thread vs several ----
+    if not replay:
+        nh = {"quick": 1, "thorough": 6}[tier] if scale >= 0.5 else 0
+        items_h = [(plain.root, seed, i) for i in range(nh)]
+        for it, r in zip(items_h, run.pmap(_run_huge, items_h)):
+            gc = "huge bs=%d groups=%d g=%d" % (r["geo"]["bs"], r["geo"]["groups"], r["geo"]["gsize"])
+            if r["skip"]:
+                rep.note_inconclusive("huge geometry idx=%d not built: %s" % (r["idx"], r["skip"]))
+                continue
+            rep.add("B_geometries", gc)
+            rep.count("B_huge_images")
+            for c in r["cases"]:
+                if c["timeout"]:
+                    rep.note_inconclusive("huge geometry idx=%d: driver timeout" % r["idx"])
+                    continue
+                f = c["facts"]
+                rep.count("B_rwbmap_runs_huge")
+                rep.count("B_rounds", f["rounds"])
+                rep.add("B_threads_started_max", f["threads_started"])
+                rep.case(json.dumps(["Bh", gc]) if f["threads_started"] >= 2 else None)
+                for key, what in c["viol"]:
+                    key = key + " [> 2^32 clusters]"
+                    if key in seen_keys:
+                        continue
+                    seen_keys.add(key)
+                    rep.violation(key, "%s | geometry: %s" % (what, gc),
+                                  replay={"part": "Bh", "idx": r["idx"], "seed": it[1], "geo": r["geo"]})
     rep.assumptions = [
         "the offset option is set right after open, before any I/O (as ext2fs_open2 does); "
         "cache=off and write-through are channel configurations, not toggled inside a history",
